@@ -32,3 +32,85 @@ package cronschedule
 //@   ensures [C04] keeps-location: result.Location() == fromTime.Location()
 //@   ensures [C04] never-before-last-scheduled: isSet(jobConfig.Status.LastScheduled) ==> ns(result) >= ns(jobConfig.Status.LastScheduled.Time)
 //@   ensures [C04] never-scheduled-not-backdated: !isSet(jobConfig.Status.LastScheduled) ==> ns(result) >= ns(fromTime)
+
+// ---- the schedule heap -----------------------------------------------------------------------------------
+// View of a Schedule: heap.hhas(s.jobConfigs, key) / heap.hprio(s.jobConfigs, key) = next due Unix second per JobConfig key.
+
+//@ pure swf(s *Schedule) bool = s != nil && heap.hwf(s.jobConfigs)
+//@ pure due(s *Schedule, key string) bool = heap.hhas(s.jobConfigs, key)
+//@ pure dueAt(s *Schedule, key string) int = heap.hprio(s.jobConfigs, key)
+
+// nextSpec: the next due instant strictly after `from` that the schedule allows: the expression's next match,
+// cut off (zero) when it lies after notAfter.
+//@ pure nextSpec(jc *execution.JobConfig, expr cron.Expression, from time.Time) time.Time =
+//@        (jc.Spec.Schedule != nil && jc.Spec.Schedule.Constraints != nil && isSet(jc.Spec.Schedule.Constraints.NotAfter)
+//@           && ns(cron.cronNext(expr, from)) > ns(jc.Spec.Schedule.Constraints.NotAfter.Time))
+//@        ? zero(time.Time) : cron.cronNext(expr, from)
+
+//@ func getNext
+//@   tags C01
+//@   safety nil
+//@   requires jobConfig != nil
+//@   ensures [C01,C03] not-after-cut: result == nextSpec(jobConfig, expr, fromTime)
+//@   ensures [C01] zero-or-later: result.IsZero() || ns(result) > ns(fromTime)
+
+//@ func Schedule.Pop
+//@   tags C01
+//@   safety nil
+//@   requires swf(s)
+//@   modifies *s.jobConfigs.pq, arrays(*heap.Item), mapof(s.jobConfigs.pq.names), heap(heap.Item)
+//@   ensures [C01] keeps-wf: swf(s)
+//@   ensures [C01] never-early: result2 ==> ns(result1) <= ns(fromTime)
+//@   ensures [C01] pops-earliest: result2 ==> old(due(s, result0)) && ns(result1) == old(dueAt(s, result0)) * 1000000000
+//@                       && (forall x string :: old(due(s, x)) ==> old(dueAt(s, result0)) <= old(dueAt(s, x)))
+//@   ensures [C01] removes-exactly-it: result2 ==> (forall x string :: due(s, x) == (old(due(s, x)) && x != result0))
+//@                       && (forall x string :: due(s, x) ==> dueAt(s, x) == old(dueAt(s, x)))
+//@   ensures [C01] nothing-due: !result2 ==> (forall x string :: old(due(s, x)) ==> old(dueAt(s, x)) * 1000000000 > ns(fromTime))
+//@   ensures [C01] unchanged-when-nothing-due: !result2 ==> (forall x string :: due(s, x) == old(due(s, x)) && (due(s, x) ==> dueAt(s, x) == old(dueAt(s, x))))
+
+//@ func Schedule.Delete
+//@   tags C01, C03
+//@   requires swf(s) && jobConfig != nil
+//@   modifies *s.jobConfigs.pq, arrays(*heap.Item), mapof(s.jobConfigs.pq.names), heap(heap.Item)
+//@   ensures [C01,C03] result == nil && swf(s)
+//@   ensures [C01,C03] removed: forall x string :: due(s, x) == (old(due(s, x)) && x != nsname(jobConfig.Namespace, jobConfig.Name))
+//@   ensures [C01,C03] others-untouched: forall x string :: due(s, x) ==> dueAt(s, x) == old(dueAt(s, x))
+
+// ---- which JobConfigs are scheduled, and with which expression / timezone -----------------------------------
+
+//@ pure scheduled(jc *execution.JobConfig) bool = jc.Spec.Schedule != nil && !jc.Spec.Schedule.Disabled && jc.Spec.Schedule.Cron != nil
+//@ pure jcKey(jc *execution.JobConfig) string = nsname(jc.Namespace, jc.Name)
+
+// the dynamic cron configuration may fail to load at any call
+//@ extern func iface github.com/furiko-io/furiko/pkg/execution/util/cronschedule.Config.Cron
+//@   params recv
+//@   ensures result1 == nil ==> result0 != nil
+
+//@ func getTimezone
+//@   requires cronSchedule != nil && cfg != nil
+//@   ensures [C01,C17] result == (cronSchedule.Timezone != "" ? cronSchedule.Timezone
+//@        : ((cfg.DefaultTimezone != nil && len(*cfg.DefaultTimezone) > 0) ? *cfg.DefaultTimezone : config.DefaultCronTimezone))
+
+//@ func Schedule.parseCronAndTimezone
+//@   tags C01, C03, C17
+//@   safety nil
+//@   requires s != nil && jobConfig != nil
+//@   ensures [C03] unscheduled-has-no-expression: !scheduled(jobConfig) ==> result0 == nil && result1 == nil && result2 == nil
+//@   ensures [C01,C03] scheduled-expression: scheduled(jobConfig) && result2 == nil ==> result0 != nil && result1 != nil
+//@        && result0 == cron.parsedExpr(jobConfig.Spec.Schedule.Cron, parser, jcKey(jobConfig))
+//@   ensures [C17] fails-only-on-parse-or-config: scheduled(jobConfig) && result2 != nil ==> result0 == nil && result1 == nil
+
+//@ func Schedule.Bump
+//@   tags C01, C03
+//@   requires swf(s) && jobConfig != nil
+//@   modifies *s.jobConfigs.pq, arrays(*heap.Item), mapof(s.jobConfigs.pq.names), heap(heap.Item)
+//@   ensures [C01,C03] keeps-wf: swf(s)
+//@   ensures [C01,C03] others-untouched: forall x string :: x != jcKey(jobConfig) ==> due(s, x) == old(due(s, x)) && (due(s, x) ==> dueAt(s, x) == old(dueAt(s, x)))
+//@   ensures [C01,C03] error-changes-nothing: result1 != nil ==> (due(s, jcKey(jobConfig)) == old(due(s, jcKey(jobConfig)))
+//@        && (due(s, jcKey(jobConfig)) ==> dueAt(s, jcKey(jobConfig)) == old(dueAt(s, jcKey(jobConfig)))))
+//@   ensures [C03] unscheduled-removed: result1 == nil && !scheduled(jobConfig) ==> !due(s, jcKey(jobConfig)) && result0.IsZero()
+//@   ensures [C01,C03] no-next-removed: result1 == nil && result0.IsZero() ==> !due(s, jcKey(jobConfig))
+//@   ensures [C01,C03] next-strictly-later: result1 == nil && !result0.IsZero() ==> scheduled(jobConfig) && ns(result0) > ns(fromTime)
+//@        && due(s, jcKey(jobConfig)) && dueAt(s, jcKey(jobConfig)) == result0.Unix()
+//@   ensures [C01,C03] next-is-the-schedules-next: result1 == nil && scheduled(jobConfig) ==>
+//@        (exists e cron.Expression, tz *time.Location :: tz != nil && result0 == nextSpec(jobConfig, e, fromTime.In(tz)))
